@@ -1,8 +1,9 @@
 (* Correspondence judge for C19 (nsq_to_file).  Three kinds of cases:
      Run     one scripted in-process run of the real FileLogger.router() (verif init-driver
              binary under a syscall tracer): configuration, pre-existing files, the injected
-             events with the clock readings observed around them, and the observed trace of
-             file operations and FINs in syscall order;
+             events with the clock readings observed around them, the system call of the
+             router that an outside fault injector made fail (if any), and the observed trace
+             of file operations, failed calls and FINs in syscall order;
      Fmt     one evaluation of the real computeFilenameFormat (through NewFileLogger);
      Black   one black-box run of the real nsq_to_file binary against a real nsqd, stopped by
              SIGTERM / SIGHUP+SIGTERM / SIGKILL: what the channel no longer owes vs the
@@ -31,6 +32,7 @@ Definition op_eqb (a b : op) : bool :=
   | ORename s d, ORename s' d' => key_eqb s s' && key_eqb d d'
   | OFin m, OFin m' => msg_eqb m m'
   | OExit x, OExit y => N.eqb x y
+  | OFail w k, OFail w' k' => fkind_eqb w w' && key_eqb k k'
   | _, _ => false
   end.
 
@@ -171,6 +173,12 @@ Record run_case := mkRun {
   r_fmt : bytes;                          (* f.filenameFormat as computed by the real code *)
   r_dts : list (Z * bytes);               (* clock reading -> strftime rendering, as observed *)
   r_ticks : bool;                         (* the sync ticker may fire during this run *)
+  r_faults : list (fkind * N * nat);      (* the injected failure in the model's terms: (kind, ordinal of the
+                                             call among the logger's calls of that kind, bytes of the line
+                                             written before a failing message write).  Empty: no call failed.
+                                             Several candidates when the observation cannot tell them apart
+                                             (gzip: a failing write(2) belongs to the Write of the current
+                                             message or to the next gzipWriter.Close) *)
   r_pre : list (key * bytes);             (* pre-existing files *)
   r_events : list jev;
   r_obs : list op;                        (* observed file operations and FINs, in syscall order *)
@@ -181,13 +189,17 @@ Record run_case := mkRun {
 Definition status_code (x : status) : N :=
   match x with Running => 0 | Exited => 0 | Fatal => 1 | Panicked => 2 | Hung => 9 end.
 
-Definition judge_run (r : run_case) : N :=
+Definition agree_with (r : run_case) (flt : option (fkind * N * nat)) : bool :=
   let c := mkCfg (r_gzip r) (r_rsize r) (r_rint r) (r_work r) (r_skip r) (r_mif r) (r_fmt r)
-                 (dt_lookup (r_dts r)) in
+                 (dt_lookup (r_dts r))
+                 (fun w n => match flt with
+                             | Some (w', n', _) => fkind_eqb w w' && N.eqb n n'
+                             | None => false
+                             end)
+                 (fun _ => match flt with Some (_, _, j) => j | None => O end) in
   let fs0 := mk_fs (r_pre r) in
   let evs := flat_map jev_events (r_events r) in
   let fuel := S (S (length evs + length (r_obs r))) in
-  let agree :=
     match explain fuel c (r_ticks r) (init fs0) 0%Z evs (r_obs r) with
     | Some s =>
         N.eqb (status_code (status_ s)) (r_exit r) &&
@@ -197,9 +209,18 @@ Definition judge_run (r : run_case) : N :=
         | None => true
         end
     | None => false
+    end.
+
+Definition judge_run (r : run_case) : N :=
+  let agree :=
+    match r_faults r with
+    | [] => agree_with r None
+    | l => existsb (fun f => agree_with r (Some f)) l
     end in
-  (* the property itself on what the implementation did *)
-  let monitor := monitor_trace fs0 (r_obs r) in
+  (* the property itself on what the implementation did: every FIN of a message whose line is
+     not in the durable (fsynced, gzip: completed-member) content of a file is a violation -- in
+     particular a FIN after a failed fsync / write / gzip close of its batch *)
+  let monitor := monitor_trace (mk_fs (r_pre r)) (r_obs r) in
   verdict agree monitor.
 
 Record fmt_case := mkFmt {
